@@ -396,6 +396,17 @@ func runConc(c driver.Case) driver.Result {
 		if msg := conservation(emissions, r.Events(), false); msg != "" {
 			res.Verdict, res.Key = driver.Violated, "C01/conc-"+target+"/notification-neither-delivered-nor-dropped"
 			res.Msg = fmt.Sprintf("%d goroutines playing [%s] into a %s observable: %s", len(scripts), c.Get("scripts"), target, msg)
+			var evs, drs, ems []string
+			for _, e := range r.Events() {
+				evs = append(evs, fmt.Sprintf("%s{%s seq=%d gid=%d late=%v}", e.String(), e.Item, e.Seq, e.GID, e.Late))
+			}
+			for _, d := range rec.DroppedEvents() {
+				drs = append(drs, fmt.Sprintf("%s{%s seq=%d}", d.What, d.Item, d.Seq))
+			}
+			for _, e := range emissions {
+				ems = append(ems, fmt.Sprintf("%s=%s[%d,%d]", e.Tag, e.N, e.Begin, e.End))
+			}
+			res.Witness = map[string]any{"emissions": ems, "observer_events": evs, "dropped_hook_events": drs, "dropped_hook_calls_total": rec.DroppedN.Load()}
 			return res
 		}
 	}
